@@ -833,7 +833,14 @@ VSattach(HFILEID     f,    /* IN: file handle */
         if (acc_mode == 'r')
             HGOTO_ERROR(DFE_BADACC, FAIL);
 
-        /* otherwise 'w' */
+        /* otherwise 'w': a new vdata needs a file opened for writing */
+        {
+            filerec_t *file_rec = HAatom_object(f);
+
+            if (BADFREC(file_rec) || !(file_rec->access & DFACC_WRITE))
+                HGOTO_ERROR(DFE_BADACC, FAIL);
+        }
+
         /* allocate space for vs,  & zero it out  */
         if ((vs = VSIget_vdata_node()) == NULL)
             HGOTO_ERROR(DFE_NOSPACE, FAIL);
